@@ -113,6 +113,8 @@ def d5(ctx, prog):
             and norm(s.value.func).split('.')[-1] == 'zeros']
     if not accs:
         raise AnalysisError('matcher score accumulator not found')
+    from .. import normalize
+    upd = normalize.normal(prog, upd, skip={'get_template_index', '_get_dimension'})
     x = nexp.NExp(upd, {upd.params[1]: (True, 0), upd.params[2]: (True, 0)}).run()
     n = 0
     written = {a for a, v, st, how in x.contrib}
